@@ -118,7 +118,7 @@ Proof.
     destruct j; lazy iota beta in Hd; try discriminate;
       (destruct (j_as_f64 _) as [y|] eqn:E; [|discriminate]; specialize (G y eq_refl);
        destruct (_ || _) eqn:Eb; [discriminate|]; inversion Hd; subst; apply orb_false_iff in Eb; destruct Eb as [E1 E2];
-       cbn [conforms_g]; rewrite G; cbn [negb orb andb]; rewrite (fin_not_nan _ G); cbn [negb andb];
+       cbn [conforms_g]; rewrite G; cbn [negb orb andb];
        apply andb_true_intro; split;
        [destruct mn as [a|]; cbn in *; [apply flt_false_fle; auto | reflexivity]
        |destruct mx as [b|]; cbn in *; [apply flt_false_fle; auto | reflexivity]]).
